@@ -18,6 +18,7 @@ import (
 	"runtime"
 	"strings"
 	"sync"
+	"sync/atomic"
 	"time"
 
 	"verifharness/hxlib"
@@ -86,8 +87,14 @@ func (w *worker) kill() {
 }
 
 // scenarioTimeout is far above anything a scenario needs (callbacks sleep a few ms in total); it only
-// turns a deadlock into a reported "hang" instead of a stuck check.
+// turns a deadlock into a reported "hang" instead of a stuck check. After the first hang the limit is
+// lowered, and after maxHangs hangs the remaining scenarios of the run are not executed any more (a tree on
+// which scenarios hang systematically must not stall the check for hours).
 const scenarioTimeout = 60 * time.Second
+const scenarioTimeoutAfterHang = 20 * time.Second
+const maxHangs = 3
+
+var hangs int32
 
 // run executes one scenario line; ok=false means the worker hung or died and must be replaced.
 func (w *worker) run(line string) (lines []string, ok bool) {
@@ -117,10 +124,18 @@ func (w *worker) run(line string) (lines []string, ok bool) {
 			}
 		}
 	}()
+	limit := scenarioTimeout
+	if atomic.LoadInt32(&hangs) > 0 {
+		limit = scenarioTimeoutAfterHang
+	}
 	select {
 	case r := <-ch:
+		if !r.ok {
+			atomic.AddInt32(&hangs, 1)
+		}
 		return r.lines, r.ok
-	case <-time.After(scenarioTimeout):
+	case <-time.After(limit):
+		atomic.AddInt32(&hangs, 1)
 		w.kill()
 		r := <-ch
 		return r.lines, false
@@ -148,6 +163,10 @@ func runAll(specs []string) [][]string {
 			defer wg.Done()
 			w := startWorker()
 			for i := range idx {
+				if atomic.LoadInt32(&hangs) >= maxHangs {
+					res[i] = []string{"skipped"}
+					continue
+				}
 				ls, ok := w.run(specs[i])
 				res[i] = ls
 				if !ok {
@@ -552,6 +571,10 @@ func generate(r *hxlib.Run, emit func(hxlib.Case)) {
 		hists := runAll(specs)
 		for i, it := range batch {
 			h := hists[i]
+			if len(h) == 1 && h[0] == "skipped" {
+				r.Count("not-executed-after-repeated-hangs")
+				continue
+			}
 			for _, l := range h {
 				switch {
 				case strings.HasPrefix(l, "end ") && !strings.HasSuffix(l, " ok"):
